@@ -555,7 +555,14 @@ func ruleStorageMemoAfterOutcome(c *Ctx) {
 		isMemoWrite := func(x ssa.Instruction) bool {
 			switch t := x.(type) {
 			case *ssa.Store:
-				return ownField(t.Addr)
+				if !ownField(t.Addr) {
+					return false
+				}
+				// x = x ± c is a statistics counter, not a claim about what the backend holds
+				if f := fieldOfAddr(t.Addr); f != nil && derivesFrom(t.Val, loadOfField(f), 3) {
+					return false
+				}
+				return true
 			case *ssa.MapUpdate:
 				if u, ok := strip(t.Map).(*ssa.UnOp); ok {
 					return ownField(u.X)
@@ -565,7 +572,7 @@ func ruleStorageMemoAfterOutcome(c *Ctx) {
 				if f == nil || len(t.Call.Args) == 0 || !ownField(t.Call.Args[0]) {
 					return false
 				}
-				for _, p := range []string{"Store", "Swap", "Add", "CompareAndSwap", "Delete", "LoadOrStore"} {
+				for _, p := range []string{"Store", "Swap", "CompareAndSwap", "Delete", "LoadOrStore"} {
 					if strings.HasPrefix(f.Name(), p) {
 						return true
 					}
